@@ -5,6 +5,7 @@ package main
 
 import (
 	"fmt"
+	"sort"
 	"go/ast"
 	"go/constant"
 	"go/parser"
@@ -34,6 +35,7 @@ type CEnv struct {
 	tparams map[string]types.Type
 	panicking string // value of panicking() in this environment
 	freePtrs map[string]CVal // captured variables: name -> pointer to the cell
+	asGoal   bool            // the expression is being proved (not assumed): existentials may use their named witness
 }
 
 func typeParamsOf(fn *ssa.Function) map[string]types.Type {
@@ -346,6 +348,11 @@ func (e *CEnv) ev(x ast.Expr) CVal {
 				return CVal{T: "(- " + v.T + ")", S: sInt}
 			}
 			return CVal{T: "(fp.neg " + v.T + ")", S: v.S, Typ: v.Typ}
+		case token.XOR:
+			if isBV(v.S) {
+				return CVal{T: "(bvnot " + v.T + ")", S: v.S, Typ: v.Typ}
+			}
+			cfail("^ on a non-integer")
 		case token.AND:
 			// address of a local variable
 			if id, ok := x.X.(*ast.Ident); ok {
@@ -716,9 +723,9 @@ func (e *CEnv) binary(x *ast.BinaryExpr) CVal {
 	arith := func(bv, fp, in string) CVal {
 		switch {
 		case isBV(s):
-			return CVal{T: "(" + bv + " " + a.T + " " + b.T + ")", S: s, Typ: a.Typ}
+			return CVal{T: e.fv.c.Define("cx", s, "("+bv+" "+a.T+" "+b.T+")"), S: s, Typ: a.Typ}
 		case s == sF64 || s == sF32:
-			return CVal{T: "(" + fp + " RNE " + a.T + " " + b.T + ")", S: s, Typ: a.Typ}
+			return CVal{T: e.fv.c.Define("cx", s, "("+fp+" RNE "+a.T+" "+b.T+")"), S: s, Typ: a.Typ}
 		case s == sInt:
 			return CVal{T: "(" + in + " " + a.T + " " + b.T + ")", S: sInt}
 		}
@@ -952,8 +959,23 @@ func (e *CEnv) call(x *ast.CallExpr) CVal {
 	case "forall", "exists":
 		// forall(i, lo, hi, body): lo <= i < hi, i an int
 		id, ok := x.Args[0].(*ast.Ident)
-		if !ok || len(x.Args) != 4 {
+		if !ok || (len(x.Args) != 4 && !(name == "exists" && len(x.Args) == 5)) {
 			cfail("%s(i, lo, hi, body)", name)
+		}
+		if name == "exists" && len(x.Args) == 5 && e.asGoal {
+			// proving an existential: the contract names the witness
+			lo := e.coerce(arg(1), sBV64, intT)
+			hi := e.coerce(arg(2), sBV64, intT)
+			w := e.coerce(arg(4), sBV64, intT)
+			saved, had := e.bound[id.Name]
+			e.bound[id.Name] = CVal{T: w.T, S: sBV64, Typ: intT}
+			body := e.ev(x.Args[3])
+			if had {
+				e.bound[id.Name] = saved
+			} else {
+				delete(e.bound, id.Name)
+			}
+			return CVal{T: and("(bvsle "+lo.T+" "+w.T+")", "(bvslt "+w.T+" "+hi.T+")", body.T), S: sBool, Typ: boolT}
 		}
 		lo := e.coerce(arg(1), sBV64, intT)
 		hi := e.coerce(arg(2), sBV64, intT)
@@ -996,24 +1018,47 @@ func (e *CEnv) call(x *ast.CallExpr) CVal {
 			cfail("callresult(Callee, i)")
 		}
 		idx, _ := strconv.Atoi(lit.Value)
-		var found *ssa.Call
-		n := 0
+		which := 0
+		if len(x.Args) > 2 {
+			if l3, ok := x.Args[2].(*ast.BasicLit); ok {
+				which, _ = strconv.Atoi(l3.Value)
+			}
+		}
+		var calls []*ssa.Call
 		for _, b := range e.fv.fn.Blocks {
 			for _, ins := range b.Instrs {
 				if c, ok := ins.(*ssa.Call); ok {
-					if sc := c.Common().StaticCallee(); sc != nil && sc.Name() == id.Name {
-						found = c
-						n++
+					if sc := c.Common().StaticCallee(); sc != nil {
+						n := sc.Name()
+						if i := strings.Index(n, "["); i > 0 {
+							n = n[:i]
+						}
+						if n == id.Name {
+							calls = append(calls, c)
+						}
 					}
 				}
 			}
 		}
-		if n != 1 {
-			cfail("callresult: %d calls of %s", n, id.Name)
+		sort.Slice(calls, func(i, j int) bool { return calls[i].Pos() < calls[j].Pos() })
+		var found *ssa.Call
+		switch {
+		case which == 0 && len(calls) == 1:
+			found = calls[0]
+		case which >= 1 && which <= len(calls):
+			found = calls[which-1]
+		default:
+			cfail("callresult: %d calls of %s (ordinal %d)", len(calls), id.Name, which)
 		}
 		sv, done := e.fv.vals[found]
 		if !done {
-			cfail("callresult: the call of %s has not been executed on this path", id.Name)
+			// not reached yet in processing order (an early return): any value; clauses guard such uses with err == nil or called()
+			rt := found.Common().Signature().Results()
+			if idx >= rt.Len() {
+				cfail("callresult: index")
+			}
+			t := rt.At(idx).Type()
+			return CVal{T: e.fv.c.Fresh("undef!"+id.Name, e.g().sortOf(t)), S: e.g().sortOf(t), Typ: t}
 		}
 		r := sv
 		if len(sv.tup) > 0 {
